@@ -130,6 +130,7 @@ LONG_TEMPLATES = [T([], [A_SECT]), T([S_INDEX], [A_ID, (lit('sect'), var('num', 
 LONG_RESERVED = {'none': [], 'hit': ['sect105.html', 'sect0105.html']}
 LONG_EVENTS = [[None, None], ['a', None]]
 LONG_LEN = 120
+SPELLING_DEPTH = 3
 
 
 # ---------------------------------------------------------------------------------------------------
@@ -422,7 +423,7 @@ def _search(block):
     order = dev_sets(t, charsub, long_family)
     events = [tuple(e) for e in block['events']]
     ev_b = [bindings(e) for e in events]
-    cfgid = (block['tindex'], charsub, tuple(reserved), long_family)
+    cfgid = (block['tindex'], charsub, tuple(reserved), long_family, sp, depth)
     root_models = tuple((d, M.initial_state(cfg)) for d in order)
     spec = print_template(t, sp)
     memo = {}
@@ -521,6 +522,12 @@ def run(tier, seed, rep):
         for cs, rs in combos:
             blocks.append({'tindex': ti, 'template': t, 'charsub': cs, 'reserved': RESERVED[rs], 'spelling': sp,
                            'depth': depth, 'events': events_for(t, tier, cs)})
+    # the other two spellings of every template (the seed only chooses which spelling gets the deep search)
+    for ti, t in enumerate(TEMPLATES):
+        for sp2 in range(3):
+            if sp2 != sp:
+                blocks.append({'tindex': ti, 'template': t, 'charsub': 'blank', 'reserved': RESERVED['some'],
+                               'spelling': sp2, 'depth': SPELLING_DEPTH, 'events': events_for(t, tier, 'blank')})
     for ti, t in enumerate(LONG_TEMPLATES):
         for rs in ('none', 'hit'):
             for ev in LONG_EVENTS:
@@ -544,6 +551,7 @@ def run(tier, seed, rep):
                        'charsub_x_reserved': ['%s/%s' % c for c in combos],
                        'configurations': len(TEMPLATES) * len(combos),
                        'events_per_request_max': max(len(b['events']) for b in blocks),
-                       'long_histories': {'configs': len(LONG_TEMPLATES) * 4, 'length': LONG_LEN}},
+                       'long_histories': {'configs': len(LONG_TEMPLATES) * 4, 'length': LONG_LEN},
+                       'other_spellings': {'configs': len(TEMPLATES) * 2, 'history_length': SPELLING_DEPTH}},
             'blocks': nblocks, 'spelling_variant': sp, 'max_depth_completed': depth, 'state_cap_hit': False,
             'floors': {'evaluations': 20000, 'issued': 10000, 'result_ValueError': 100, 'merged': 1000}}
